@@ -562,6 +562,9 @@ def r13_9(run):
         v = assign_to(n.ast, K)
         if v is None or is_none(v) or not any(isinstance(x, ast.Name) and x.id in linevars for x in ast.walk(n.ast.value)):
             continue
+        if any(isinstance(x, ast.Call) and callee_attr(x) in ('group', 'groups', 'groupdict') for x in ast.walk(n.ast.value)):
+            k += 1
+            continue        # cut by a regular expression: whether the pattern demands the "=" is R13.4's question
         k += 1
         ok = any((lab == 'T' and implies(t.ast)) or (lab == 'F' and refutes(t.ast)) for t, lab in g.guarded_by(n, lambda t_: True))
         run.ob('R13.9', pk, n.ast, 'a new key is taken from a line only where the line is known to contain "="', ok, slot='key-needs-equals',
